@@ -14,11 +14,14 @@ RX == <<<<1, 0, 0>>, <<0, 0, -1>>, <<0, 1, 0>>>>
 RY == <<<<0, 0, 1>>, <<0, 1, 0>>, <<-1, 0, 0>>>>
 RZ == <<<<0, -1, 0>>, <<1, 0, 0>>, <<0, 0, 1>>>>
 Pose(p, r) == [p |-> p, r |-> r]
-\* the pose-path palette: a static pose, a 3-step path with turning orientation, a 4-step path with a repeated position
+\* the pose-path palette: a static pose, a 3-step path with turning orientation, a 4-step path with a repeated position,
+\* a 6-step path (thorough tier)
 PathOf(id) ==
     CASE id = "static" -> <<Pose(<<2, -1, 3>>, RZ)>>
       [] id = "path3"  -> <<Pose(<<0, 0, 0>>, Id3), Pose(<<4, 0, 0>>, RZ), Pose(<<4, 5, 0>>, RX)>>
       [] id = "path4"  -> <<Pose(<<1, 1, 1>>, RY), Pose(<<1, 1, 6>>, RY), Pose(<<1, 1, 6>>, RX), Pose(<<-5, 1, 6>>, Id3)>>
+      [] id = "path6"  -> <<Pose(<<0, 0, 0>>, Id3), Pose(<<3, 0, 0>>, RZ), Pose(<<6, 0, 0>>, RX), Pose(<<6, 4, 0>>, RY),
+                            Pose(<<6, 8, 0>>, RZ), Pose(<<6, 8, 5>>, Id3)>>
 SelOf(id) ==
     CASE id = "default" -> [kind |-> "default", n |-> 0, l |-> <<>>]
       [] id = "zero"    -> [kind |-> "int", n |-> 0, l |-> <<>>]
